@@ -1,6 +1,7 @@
 package main
 
 import (
+	"bufio"
 	"bytes"
 	"compress/gzip"
 	"context"
@@ -8,6 +9,7 @@ import (
 	"fmt"
 	"io"
 	"math/rand"
+	"net"
 	"net/http"
 	"strconv"
 	"strings"
@@ -272,4 +274,120 @@ func malformedJSON(rng *rand.Rand, valid []byte, signal, kind string) []byte {
 	default: // unbalanced
 		return []byte(`{"resourceLogs": [ {"resource": `)
 	}
+}
+
+// ------------------------------------------------------------------ requests cut short on the wire
+
+// topLevelEnds returns the offsets just behind every top-level field of a protobuf message (for an
+// Export*ServiceRequest: behind every Resource* entry). Computed from the protobuf framing only.
+func topLevelEnds(b []byte) []int {
+	var ends []int
+	for i := 0; i < len(b); {
+		// tag
+		wt := b[i] & 7
+		for i < len(b) && b[i] >= 0x80 {
+			i++
+		}
+		i++
+		switch wt {
+		case 0:
+			for i < len(b) && b[i] >= 0x80 {
+				i++
+			}
+			i++
+		case 1:
+			i += 8
+		case 5:
+			i += 4
+		case 2:
+			n, shift := 0, uint(0)
+			for i < len(b) {
+				c := b[i]
+				i++
+				n |= int(c&0x7F) << shift
+				shift += 7
+				if c < 0x80 {
+					break
+				}
+			}
+			i += n
+		default:
+			return ends
+		}
+		if i > len(b) {
+			return ends
+		}
+		ends = append(ends, i)
+	}
+	return ends
+}
+
+// cutObs is what one cut-short request produced.
+type cutObs struct {
+	Where      string `json:"cut"`
+	Offset     int    `json:"bytes_sent"`
+	Announced  int    `json:"content_length_announced"`
+	Framing    string `json:"framing"`
+	Status     int    `json:"status"`
+	NoResponse bool   `json:"no_response"`
+	ErrText    string `json:"error,omitempty"`
+	Timeout    bool   `json:"-"`
+	Calls      int64  `json:"consumer_calls"`
+}
+
+// rawTCPCut plays a sender that dies in the middle of a request: it writes the request head, only `sent` of the
+// body, and then closes its write side (FIN) so that the receiver's answer, if there is one, can still be read.
+// framing: "length" (Content-Length = announced) or "chunked" (chunks for `sent`, terminating chunk missing).
+func (e *env) rawTCPCut(signal, contentType, contentEncoding, framing string, announced int, sent []byte) (o cutObs) {
+	o = cutObs{Offset: len(sent), Announced: announced, Framing: framing}
+	conn, err := net.DialTimeout("tcp", e.httpAddr, netGuard)
+	if err != nil {
+		o.ErrText, o.Timeout = err.Error(), true // could not even connect: infrastructure
+		return o
+	}
+	defer conn.Close()
+	conn.SetDeadline(time.Now().Add(netGuard))
+	var head bytes.Buffer
+	fmt.Fprintf(&head, "POST %s HTTP/1.1\r\nHost: %s\r\nContent-Type: %s\r\n", httpPath[signal], e.httpAddr, contentType)
+	if contentEncoding != "" {
+		fmt.Fprintf(&head, "Content-Encoding: %s\r\n", contentEncoding)
+	}
+	if framing == "chunked" {
+		head.WriteString("Transfer-Encoding: chunked\r\n\r\n")
+		for off := 0; off < len(sent); {
+			n := len(sent) - off
+			if n > 1000 {
+				n = 1000
+			}
+			fmt.Fprintf(&head, "%x\r\n", n)
+			head.Write(sent[off : off+n])
+			head.WriteString("\r\n")
+			off += n
+		}
+		// no "0\r\n\r\n": the sender died before it finished
+	} else {
+		fmt.Fprintf(&head, "Content-Length: %d\r\n\r\n", announced)
+		head.Write(sent)
+	}
+	if _, err := conn.Write(head.Bytes()); err != nil {
+		o.ErrText, o.NoResponse = err.Error(), true
+		return o
+	}
+	if tc, ok := conn.(*net.TCPConn); ok {
+		tc.CloseWrite()
+	}
+	resp, err := http.ReadResponse(bufio.NewReader(conn), nil)
+	if err != nil {
+		o.ErrText = err.Error()
+		if ne, ok := err.(net.Error); ok && ne.Timeout() {
+			o.Timeout = true
+		} else {
+			o.NoResponse = true // the receiver closed the connection without answering
+		}
+		return o
+	}
+	io.Copy(io.Discard, io.LimitReader(resp.Body, 1<<16))
+	resp.Body.Close()
+	o.Status = resp.StatusCode
+	return o
 }
